@@ -427,6 +427,8 @@ func lookupFieldAnyPkg(t types.Type, name string) (types.Object, []int) {
 	return nil, nil
 }
 
+var quantVarRe = regexp.MustCompile(`_q[0-9]+`)
+
 func (e *SpecEnv) selectField(v Term, idx int, old bool) Term {
 	bt, isPtr := derefType(v.GT)
 	st, ok := bt.Underlying().(*types.Struct)
@@ -437,7 +439,15 @@ func (e *SpecEnv) selectField(v Term, idx int, old bool) Term {
 	if isPtr {
 		c := e.tx.h.fieldComp(bt, idx)
 		ht := e.tx.h.heapTerm(e.state(old), c)
-		return Term{S: sapp("select", ht, v.S), Sort: e.d().sortOf(ft), GT: ft}
+		res := Term{S: sapp("select", ht, v.S), Sort: e.d().sortOf(ft), GT: ft}
+		if !quantVarRe.MatchString(v.S) {
+			// heap typing for ground reads in specifications, as for loads in the code: object identities stored in a
+			// component are older than the component's last modification
+			if inv := e.tx.typeInv(res, ft, e.tx.h.loadBound(e.state(old), c), 0); inv != "true" {
+				e.tx.assume(inv)
+			}
+		}
+		return res
 	}
 	sname := e.d().sortOf(bt)
 	return Term{S: sapp(e.d().fieldSel(sname, st, idx), v.S), Sort: e.d().sortOf(ft), GT: ft}
@@ -456,7 +466,13 @@ func (e *SpecEnv) index(v, i Term, old bool) Term {
 		}
 		c := e.tx.h.elemComp(et)
 		ht := e.tx.h.heapTerm(e.state(old), c)
-		return Term{S: fmt.Sprintf("(select (select %s (s-obj %s)) (+ (s-off %s) %s))", ht, v.S, v.S, i.S), Sort: c.VSort, GT: et}
+		res := Term{S: fmt.Sprintf("(select (select %s (s-obj %s)) (+ (s-off %s) %s))", ht, v.S, v.S, i.S), Sort: c.VSort, GT: et}
+		if !quantVarRe.MatchString(v.S) && !quantVarRe.MatchString(i.S) {
+			if inv := e.tx.typeInv(res, et, e.tx.h.loadBound(e.state(old), c), 0); inv != "true" {
+				e.tx.assume(inv)
+			}
+		}
+		return res
 	}
 	if strings.HasPrefix(v.Sort, "(Array Int ") {
 		var et types.Type
